@@ -200,7 +200,7 @@ PROPS["C19"] = {
 TB_SCHED = ["the cooperative scheduler and the instrumented vatomic/vsync packages (vsched/, ~400 lines): goroutines are serialised, so the explored executions are the sequentially consistent interleavings of the instrumented operations (Go's sync/atomic is sequentially consistent)",
             "import-path substitution applied to a scratch copy of the working tree (found by scanning imports on every run)"]
 PROPS["C04"] = {
-    "components": [Sched("gauge", 3000, 100000, exhaustive_limit=3000, conformance="tr-gauge,tr-run-gauge", only="C04:", pb1=((40, 1500), (400, 40000)))],
+    "components": [Sched("gauge", 3000, 100000, exhaustive_limit=3000, conformance="tr-gauge,tr-run-gauge,tr-exec-gauge", only="C04:", pb1=((40, 1500), (400, 40000)))],
     "rule": "gauge: 2-5 callers with outcomes success/failure/panic/failing fallback/panicking fallback race on one circuit with run and fallback limits in {-1,0,1,2,3}; every atomic operation and a marker inside the run/fallback functions is a scheduling point; "
             "random schedules plus DFS over all schedules of small 2-caller configurations; a run is distinct by (configuration, schedule) and every schedule of >= 2 callers is non-trivial",
     "trusted_base": TB_COMMON + TB_SCHED,
@@ -268,7 +268,7 @@ PROPS["C08"]["components"].append(CircuitSeq("C08", ["started"], 150, 4000, suit
 PROPS["C08"]["rule"] += " gowrap: Go on nil / zero-value / Disabled circuits (also with an already cancelled context) must still run the function."
 PROPS["C08"]["components"].append(OverrideMeta(1500, 40000))
 PROPS["C08"]["rule"] += " override-meta (metamorphic, real code only): histories with an episode setcfg fo=1|dis=1, calls, setcfg fo=0|dis=0 (often over an open circuit whose sleep window has elapsed) are re-run with the episode replaced by the passage of its clock readings; every later op must answer identically ('clearing an override resumes the underlying state')."
-PROPS["C10"]["components"].append(Sched("gauge", 2000, 100000, label="sched-gauge-panic", conformance="tr-run-gauge", only="C10:", pb1=((40, 1500), (400, 40000))))
+PROPS["C10"]["components"].append(Sched("gauge", 2000, 100000, label="sched-gauge-panic", conformance="tr-run-gauge,tr-exec-gauge", only="C10:", pb1=((40, 1500), (400, 40000))))
 PROPS["C10"]["rule"] += " gauge (schedules): 2-5 concurrent callers among succeeding / failing / panicking run functions and fallbacks under every limit: a panic reaches its own caller with its value, nobody else sees one, and both gauges read zero once all returned."
 PROPS["C10"]["trusted_base"] = PROPS["C10"]["trusted_base"] + TB_SCHED
 PROPS["C01"]["components"].append(Sched("shed", 3000, 150000, exhaustive_limit=3000, conformance="tr-call,tr-run", only="C01:", pb1=((40, 1500), (400, 40000))))
